@@ -29,7 +29,7 @@ RULE = ('every implementation run is judged twice - by the Coq model (correspond
         '(plain / allowed / retryable / both / should_retry / allowed+should_retry, and three kinds derived from BaseException only: plain / allowed / retryable; '
         'length-3 and length-4 streams use two sub-alphabets)} (x poisoned-write variants for the shorter streams) x list-or-callable '
         'predicates x option flags; nested programs (with / decorated call / try / sequence, depth <= 2 exhaustive, depth 3 sampled from the seed); generator '
-        'step sequences up to 3 resumptions; Flask and Bottle requests. non-trivial = the run retried, or a commit failed, or a session was nested, or an '
+        'step sequences up to 3 resumptions (writes, flush(), auto-flushing queries, manual commits; another read-only db_session of the same thread runs between resumptions); Flask and Bottle requests. non-trivial = the run retried, or a commit failed, or a session was nested, or an '
         'exception propagated; distinct = distinct case descriptions')
 
 SESS_STREAM = {'allowed': [1, 3, 5, 7], 'retryable': [2, 3, 8]}
@@ -140,7 +140,11 @@ def prog_cases(ctx, deep=False):
         if c: yield c
 
 
-GOPS = [[], [['w', 0, 0]], [['w', 0, 0], ['c']], [['w', 0, 0], ['c'], ['w', 0, 0]], [['w', 0, 1]], [['w', 0, 1], ['c']], [['c']]]
+GOPS = [[], [['w', 0, 0]], [['w', 0, 0], ['c']], [['w', 0, 0], ['c'], ['w', 0, 0]], [['w', 0, 1]], [['w', 0, 1], ['c']], [['c']],
+        # flushed but not committed: explicit flush() / a query's auto-flush leave cache.modified False and cache.in_transaction True
+        [['w', 0, 0], ['f']], [['w', 0, 0], ['q']], [['w', 0, 0], ['f'], ['c']], [['w', 0, 0], ['f'], ['w', 0, 0]], [['w', 0, 0], ['q'], ['w', 0, 0], ['c']],
+        [['w', 0, 1], ['f']], [['f']]]
+GOPS_CLEAN = [[], [['w', 0, 0], ['c']], [['w', 0, 0], ['f'], ['c']], [['w', 0, 0], ['q'], ['c']]]     # code after which a correct session may suspend
 GENDS = ['yield', 'stop', ['raise', 0], ['raise', 1], ['raise', 6]]
 
 
@@ -152,17 +156,23 @@ def gen_cases(ctx, deep=False):
             for op in ops:
                 if op[0] == 'w':
                     n[0] += 1; o2.append(['w', n[0], op[2]])
-                else: o2.append(['c'])
+                else: o2.append([op[0]])
             out.append([o2, end])
         return out
     sess = {'retry': 0, 'allowed': [1], 'retryable': [], 'rep': 'll'}
-    maxlen = 3
-    for ln in range(1, maxlen + 1):
-        for prefix in itertools.product(GOPS, repeat=ln - 1):
+    k = 0
+    for ln in (1, 2, 3):
+        # one and two resumptions: every stretch of code before the first yield (also those a correct session refuses to suspend
+        # after - a broken one would go on); three resumptions: the first two stretches end clean
+        prefixes = [()] if ln == 1 else ([(p,) for p in GOPS] if ln == 2 else list(itertools.product(GOPS_CLEAN, repeat=2)))
+        for prefix in prefixes:
             for last_ops in GOPS:
                 for end in GENDS:
+                    if ln == 3 and end not in ('yield', 'stop') and not ctx.thorough: continue
                     steps = [[ops, 'yield'] for ops in prefix] + [[last_ops, end]]
-                    yield {'kind': 'gen', 'sess': sess, 'steps': number(steps), 'cfail': 3}
+                    k += 1
+                    # between two resumptions the same thread runs another read-only db_session (every case with more than one resumption)
+                    yield {'kind': 'gen', 'sess': sess, 'steps': number(steps), 'cfail': 3, 'interleave': ln > 1}
 
 
 def web_cases(ctx):
@@ -235,7 +245,7 @@ def c_obs(ob):
 
 def c_gstep(st):
     ops, end = st
-    o = c_list(['GWrite %d %s' % (op[1], c_bool(op[2])) if op[0] == 'w' else 'GCommit' for op in ops])
+    o = c_list(['GWrite %d %s' % (op[1], c_bool(op[2])) if op[0] == 'w' else ('GFlush' if op[0] in ('f', 'q') else 'GCommit') for op in ops])
     e = {'yield': 'GYield', 'stop': 'GStop'}.get(end) if isinstance(end, str) else 'GRaise %d' % end[1]
     return '(%s, %s)' % (o, e)
 
@@ -441,10 +451,14 @@ def spec_prog_rows(p, cf):
 
 
 def spec_gen(steps, cf):
+    """statement-level reading: a resumption that ends without an exception has committed all its writes; flushed writes count as
+    unfinished work exactly like unflushed ones (they sit in an open transaction)"""
     rows, pending = [], []
     for ops, end in steps:
         for op in ops:
             if op[0] == 'w': pending.append((op[1], op[2]))
+            elif op[0] in ('f', 'q'):
+                if any(po for _, po in pending): return rows, cf          # the flush raises inside the generator
             else:
                 if any(po for _, po in pending): return rows, cf
                 rows += [m for m, _ in pending]; pending = []
